@@ -82,6 +82,14 @@ def lib_cases(chk, ctx):
                            [size + 1], [max(1, size // 3) + 1], [4096, 1]]) for _ in range(2)]
         out.append({"kind": "lib", "content": [kind, size, i], "cfg": cfg, "seg": seg, "segkind": segk, "reads": reads,
                     "zh": ctx["zh"], "zh_plain": ctx.get("zh_plain")})
+    # the image written behind bytes of the caller's own (descriptor positioned there, or O_APPEND on a non-empty file)
+    for j in range(12 if chk.quick else 400):
+        kind, size = r.choice([("text", 300), ("license", 70000), ("random", 9000), ("mixed", 600000), ("text", 20000)])
+        cfg = {"comp": r.choice([0, 2]), "level": 1, "manual": r.random() < 0.4, "chunk_hash": None, "full_hash": r.choice([None, 0, 3]), "uncomp": False, "closefd0": False,
+               "extra_end": 0, "dictspec": r.choice([None, None, 100]), "preamble": r.choice([1, 1000, 4096, 100000]), "append": r.random() < 0.4}
+        segk = "ends" if cfg["manual"] else "rand"
+        out.append({"kind": "lib", "content": [kind, size, 800000 + j], "cfg": cfg, "seg": _segmentation(r, size, segk, cfg["manual"]), "segkind": segk, "reads": [[4096]],
+                    "zh": ctx["zh"], "zh_plain": ctx.get("zh_plain")})
     # a minimum given WITHOUT a maximum (the setter compares it with a maximum that is still unset), incl. minima above the default
     # maximum of 10 MiB with more than that written into one chunk: whatever the setter says, a write must return and round-trip
     for j, (cmin, manual, size, kind) in enumerate([(12 << 20, True, (10 << 20) + 70000, "zeros"), ((10 << 20) + 1, False, (10 << 20) + 9000, "periodic:7"),
@@ -120,6 +128,11 @@ def run_lib(case):
     desc = {"content": case["content"], "cfg": case["cfg"], "segmentation": case["segkind"], "reads": case["reads"]}
     keep = False
     try:
+        pre = b""
+        if cfg.get("preamble"):
+            pre = gen.content("random", cfg["preamble"], 77)
+            files["out.zck"] = pre
+            stats["outputs_behind_a_preamble"] = 1
         w = core.run_zh(case["zh"], cdir, gen.writer_script(cfg, seg=case["seg"]), files, name="write")
         if w.harness_error:
             return core.verdict(cid, "inconclusive", detail="harness: %s" % w.harness_error, case=case)
@@ -145,6 +158,11 @@ def run_lib(case):
         stats["worst_write_call_ms"] = 0
         Z = open(os.path.join(cdir, "out.zck"), "rb").read()
         viol = []
+        if pre:
+            if Z[:len(pre)] != pre:
+                viol.append(("c01:lib:preamble-damaged", "the %d bytes in front of the image changed (file now %d bytes)" % (len(pre), len(Z))))
+            Z = Z[len(pre):]
+            open(os.path.join(cdir, "out.zck"), "wb").write(Z)     # the readers below get the image on its own
         v = zckref.decode(Z)
         if not v.valid:
             viol.append(("c01:lib:file-invalid:%s" % v.reason.split(":")[0].split("(")[0].strip().replace(" ", "-"),
